@@ -27,10 +27,10 @@ def confirm(patch, demo, pkgdir):
         out["suite_with_change"] = (rc, o[-600:])
         dst = os.path.join(wt, pkgdir, "zz_seeded_demo_test.go")
         shutil.copy(demo, dst)
-        rc, o = sh(["go", "test", "-vet=off", "-count=1", "-run", "Seeded|Demo|seeded|demo", "./" + pkgdir], cwd=wt)
+        rc, o = sh(["go", "test", "-vet=off", "-count=1", "-run", "Seed|Demo|seeded|demo", "./" + pkgdir], cwd=wt)
         out["demo_with_change"] = (rc, o[-800:])
         sh(["git", "apply", "-R", patch], cwd=wt)
-        rc, o = sh(["go", "test", "-vet=off", "-count=1", "-run", "Seeded|Demo|seeded|demo", "./" + pkgdir], cwd=wt)
+        rc, o = sh(["go", "test", "-vet=off", "-count=1", "-run", "Seed|Demo|seeded|demo", "./" + pkgdir], cwd=wt)
         out["demo_without_change"] = (rc, o[-400:])
     finally:
         sh(["git", "-C", "/repo", "worktree", "remove", "--force", wt])
